@@ -356,6 +356,9 @@ func (d *driver) run(entry string, data []byte) result {
 	}()
 	runtime.ReadMemStats(&m1)
 	res.Heap = int(m1.TotalAlloc - m0.TotalAlloc)
+	if res.Heap > 1<<30 {
+		res.Heap = 1 << 30 // TLC integers are 32 bit
+	}
 	res.BufReq = append(res.BufReq, d.hook.reqs...)
 	src := d.raws
 	if entry == "srv" {
